@@ -130,7 +130,8 @@ func init() {
 			return nil
 		},
 		"verifFailRead": func(fr *frame, args []value) value {
-			fr.i.ps.failRead[fr.i.concreteString(args[0], "verifFailRead")] = true
+			// the file exists but cannot be read (natively: a directory in its place); the name may be symbolic
+			fr.i.vfsSet(args[0], unreadable{})
 			return nil
 		},
 		"verifFailWrite": func(fr *frame, args []value) value {
@@ -140,6 +141,9 @@ func init() {
 		"verifFile": func(fr *frame, args []value) value {
 			k := fr.i.vfsFind(args[0])
 			if k < 0 {
+				return tuple{"", false}
+			}
+			if _, bad := fr.i.ps.vfs[k].data.(unreadable); bad {
 				return tuple{"", false}
 			}
 			return tuple{fr.i.ps.vfs[k].data, true}
